@@ -115,6 +115,14 @@ void vf_entropy_seed(uint64_t seed)
 
 void vf_entropy_real(int on) { vf_t()->mode_real = on; }
 
+/* leaves a known pattern in the stack region the next call will use (what an uninitialised local then holds) */
+__attribute__((noinline)) void vf_stack_dirty(int v)
+{
+	volatile unsigned char a[49152];
+	memset((void *)a, v, sizeof a);
+	__asm__ volatile("" : : "r"(a) : "memory");
+}
+
 /* bytes served (in order) before the PRNG continues */
 int vf_entropy_push(const uint8_t *p, size_t n)
 {
